@@ -12,6 +12,11 @@ import EpModel.Props.C03
   EpModel.Lemmas.Builder.  Hypotheses: `Cfg.WF` (the field ranges / array sizes every value of the
   Rust types has) and `Encodable` (the real size fits the IPv4 / IPv6 length field, no ICMPv6 in
   IPv4), both decidable.  No bound on the payload or on any field.
+
+  Parsing (section "parsing the output"): `build_parses` — strict wire-format decoding (`Spec.decode`,
+  which by C03 is what the model of `SlicedPacket::from_*` returns) accepts every built packet and returns
+  exactly the configured layers (`expPacket`), uniformly over `Cfg` under the decidable side conditions
+  `ParseOk`; lemmas in EpModel.Lemmas.BuilderParse.
 -/
 namespace EpModel.Props.C10
 open EpModel EpModel.Codec EpModel.CodecNet EpModel.Builder EpModel.Checksum EpModel.Lemmas.Builder
@@ -284,8 +289,8 @@ options and authentication header; IPv6 with every subset of hop-by-hop / destin
 fragment / authentication / final destination options headers, walked in the order `set_next_headers`
 chains them) with its payload window, protocol number, length source and fragmentation flag, and the
 transport window (UDP by its length field, TCP with the header length from the data offset, ICMPv4,
-ICMPv6) - no transport layer behind ARP and in fragments.  Side conditions `ParseOk` (decidable, each
-one necessary for the statement as it stands):
+ICMPv6) - no transport layer behind ARP and in fragments.  Side conditions `ParseOk` (decidable;
+sufficient, and each of them excludes configurations for which the statement is false):
   * VLAN tags only behind Ethernet II, ARP only behind a link layer (all the typed steps offer);
   * a payload written without transport header (`write` of the IP step with an ip number) must not be
     announced by a number the decoder itself interprets (51 in IPv4; 0, 43, 44, 51, 60 in IPv6; 1, 6, 17,
@@ -293,7 +298,8 @@ one necessary for the statement as it stands):
   * an ICMPv4 header with type 13 / 14 and code 0 (typed timestamp header or raw) must make a 20 byte
     message: RFC 792 timestamp messages have a fixed size and strict slicing refuses any other, so
     `.icmpv4(TimestampRequest(..))` with a non-empty payload builds a packet the crate's own
-    `SlicedPacket::from_*` rejects.
+    `SlicedPacket::from_*` / `PacketHeaders::from_*` reject (`icmpv4_timestamp_with_payload_is_built_and_rejected`
+    below; reproduced against the crate: `Len{required_len: 20, len: 21, layer: Icmpv4Timestamp, offset 34}`).
 Through C03 (`SlicedPacket` model = `Spec.decode` on every byte string) the same packets are what the
 model of the crate's strict slicing returns (`strict_slicing_accepts_*`).  The special cases below
 spell the returned `Packet` out.  Not covered: nothing of `Cfg` is left out; outside the statement are
